@@ -1012,6 +1012,19 @@ def large_specs():
           {"name": "opB", "skills": {"S%02d" % i: 1.0 for i in range(12) if i % 3}, "fskills": {"MA": 1.0, "MB": 1.0}, "cost": 5.0}]
     out.append({"tasks": tasks, "links": [[i, i + 1, "FS"] for i in range(11)], "components": comps, "workplaces": wps, "teams": [{"name": "TM0", "targets": list(range(12)), "workers": ws}],
                 "label": "large:machine-chain12"})
+    # (L10) a yard with a fabrication and an outfitting team; painting_prep is served by both; all work amounts differ
+    names = ["block_assembly", "cutting", "hull_welding", "pipe_fitting", "painting_prep", "cable_laying", "inspection", "final_check"]
+    work = [40.0, 30.0, 24.0, 12.0, 6.0, 5.0, 4.0, 3.0]
+    tasks = [{"name": nm, "work": w} for nm, w in zip(names, work)]
+    ix = {nm: i for i, nm in enumerate(names)}
+    links = [[ix[a], ix[b], "FS"] for a, b in (("cutting", "pipe_fitting"), ("cutting", "painting_prep"), ("pipe_fitting", "inspection"), ("painting_prep", "cable_laying"),
+                                              ("inspection", "final_check"), ("hull_welding", "final_check"), ("block_assembly", "final_check"), ("cable_laying", "final_check"))]
+    wk = lambda nm, sk: {"name": nm, "skills": {k: 1.0 for k in sk}, "cost": 1.0}  # noqa: E731
+    fab = [wk("welder_1", ["hull_welding"]), wk("welder_2", ["cutting", "hull_welding"]), wk("fitter_1", ["cutting", "pipe_fitting", "painting_prep"]), wk("assembler_1", ["block_assembly"]), wk("assembler_2", ["block_assembly"])]
+    outf = [wk("inspector_1", ["inspection", "final_check"]), wk("painter_1", ["painting_prep"]), wk("electrician_1", ["cable_laying"])]
+    out.append({"tasks": tasks, "links": links, "teams": [{"name": "team_fab", "targets": [ix[n_] for n_ in ("block_assembly", "cutting", "hull_welding", "pipe_fitting", "painting_prep")], "workers": fab},
+                                                          {"name": "team_out", "targets": [ix[n_] for n_ in ("painting_prep", "cable_laying", "inspection", "final_check")], "workers": outf}],
+                "label": "large:yard-two-teams"})
     return out
 
 
